@@ -172,8 +172,22 @@ class Client:
     def _build_yaml(self):
         from gym_gridverse.envs.yaml.factory import factory_env_from_yaml
 
-        self.mspec = spec_from_yaml_data(load_yaml_data(self.spec['yaml']))
-        self.env = factory_env_from_yaml(yaml_path(self.spec['yaml']))
+        edit = self.spec.get('yaml_edit')
+        if edit:
+            import copy
+
+            from gym_gridverse.envs.yaml.factory import factory_env_from_data
+
+            data = copy.deepcopy(load_yaml_data(self.spec['yaml']))
+            k, scale = edit['dup_reward']
+            src = data['reward_functions'][k % len(data['reward_functions'])]
+            data['reward_functions'].append({kk: (vv * scale if isinstance(vv, float) else vv) for kk, vv in src.items()})
+            self.mspec = spec_from_yaml_data(data)
+            self.env = factory_env_from_data(copy.deepcopy(data))
+            self.sim.ctx.probe('knob:yaml_duplicate_reward_name')
+        else:
+            self.mspec = spec_from_yaml_data(load_yaml_data(self.spec['yaml']))
+            self.env = factory_env_from_yaml(yaml_path(self.spec['yaml']))
         self.proxied = False
 
     def _build_hand(self):
